@@ -432,10 +432,9 @@ static void do_op(void)
     int K = (g_mode == 0) ? (int) h_argi("k", 4) : g_abc->K;
     char **as = NULL; ESL_DSQ **ax = NULL; char *copy, *tok, *save = NULL;
     ESL_DMATRIX *S = NULL, *Dm = NULL, *J = NULL, *V = NULL; int st1, st2, st3, st4, st5, st6 = eslOK;
-    double avgid = 0., avgm = 0., cid = -1., cconn = -1.; int skipavg = 0, ragged = 0; int64_t len0 = 0;
-    /* esl_dst_{C,X}Average{Id,Match} `return status` straight out of their loops when a pair is not aligned: the output is left
-     * untouched (so it is preset to the 0 the sibling routines store) and, in the sampling branch, the ESL_RANDOMNESS is
-     * leaked (proposed fix: /var/tmp/fixes-proposed/C16-average-error-paths.patch) - that combination is not driven. */
+    double avgid = -7., avgm = -7., cid = -1., cconn = -1.; int skipavg = 0, ragged = 0; int64_t len0 = 0;
+    /* esl_dst_{C,X}Average{Id,Match} on an unaligned pair: eslEINVAL and *opt_avg = 0 in BOTH branches (repaired by 640fa96; the
+     * outputs are preset to a non-zero value so that "left untouched" shows, and a leaked ESL_RANDOMNESS shows as lsan:leak). */
     if (!sq || maxc < 1 || K < 2) { h_out("bad-op"); return; }
     for (p = sq, n = 1; *p; p++) if (*p == ',') n++;
     as = calloc(n, sizeof(char *)); ax = calloc(n, sizeof(ESL_DSQ *));
@@ -451,7 +450,7 @@ static void do_op(void)
     if (i != n) bad = 1;
     if (!bad) {
       int exhaustive = (n <= maxc && (int64_t) n * n <= 2 * (int64_t) maxc && (n * (n-1) / 2) <= maxc);
-      skipavg = (n > 1 && !exhaustive && ragged);
+      (void) exhaustive; (void) ragged;
       st4 = st5 = eslOK;
       if (g_mode == 0) {
         st1 = esl_dst_CPairIdMx(as, n, &S);  st2 = esl_dst_CDiffMx(as, n, &Dm);  st3 = esl_dst_CJukesCantorMx(K, as, n, &J, &V);
